@@ -49,6 +49,7 @@ type Obligation struct {
 	script      string
 	scriptQF    string
 	scriptAbs   string
+	inputs      []*inputNode
 	candidateQF bool
 }
 
@@ -102,6 +103,7 @@ type Engine struct {
 	invokeDepth int
 	invokeTrace []string
 	tmplFuncs   map[int]*Term
+	inputs      []*inputNode
 	byteRefs    map[int]bool
 	files       []*ContractFile
 	stubs       map[string]string
@@ -192,6 +194,7 @@ type Frame struct {
 	entrySt   *State
 	clause    bool // executing a contract clause / spec function: no obligations
 	freshBase *Term
+	curSt     *State
 	iter      string
 }
 
